@@ -21,6 +21,7 @@ MEAS_DIAG = [
     ('none', []), ('pass', []), ('fail', []), ('unset', []), ('marg', []), (['fail', 'pass'], []), (['unset', 'fail', 'pass'], []),
     ('none', ['A']), ('none', ['FA']), ('none', ['raise']), ('none', ['raise', 'FA']), ('none', ['none', 'A']),
     ('pass', ['FA']), ('fail', ['A']), ('fail', ['raise']), ('pass', ['A', 'FB']),
+    ('dimunset', []), ('dimset', []), ('none', ['AFlist']), ('none', ['AF1']), ('none', ['ABlist']), ('pass', ['AFlist']),
 ]
 OPTS = [
     {}, {'repeat_limit': 1}, {'repeat_limit': 2}, {'repeat_limit': 4}, {'force_repeat': True}, {'repeat_on_measurement_fail': True},
@@ -42,7 +43,10 @@ def positions(x):
 def ret_sequences(tier):
   seqs = [[r] for r in RETS]
   seqs += [[a, b] for a in ('repeat', 'hang', 'raise', 'ok', 'fail') for b in RETS]
+  # slow attempts: each takes more than half of the phase timeout, so a deadline that is not per attempt expires
+  seqs += [['slowok'], ['slowrepeat', 'slowok'], ['slowrepeat', 'slowrepeat', 'slowok'], ['slowrepeat', 'slowrepeat', 'hang']]
   if tier == 'thorough':
+    seqs += [['slowrepeat', 'slowrepeat', c] for c in RETS]
     seqs += [[a, b, c] for a in ('repeat', 'hang') for b in ('repeat', 'hang', 'ok') for c in RETS]
     seqs += [['repeat', 'repeat', 'repeat', c] for c in ('ok', 'repeat', 'fail', 'raise')]
   return seqs
